@@ -1,7 +1,600 @@
 import M3d.Basic
-/-! Line-protocol handler for C11. Core-only. (stub) -/
-namespace M3d.Drv.C11
+import M3d.Model.Surface
+import M3d.Model.MeshDiag
+/-!
+Line-protocol handler for C11.  Core-only.
 
-def handleAll (ws : List String) : Option String := none
+One line = one mesh and one family of REAL diagnostics / repairs applied to it (tokens after `c11`):
+
+    <kind> I <n> f1 … fn [E <eps>] [C <m> id x y z …] [Q <k> x y z …]
+
+`I` is the mesh as an id soup in the harness's face order (face index = position; 3-D face `a,b,c`,
+2-D segment `a,b`; ids = distinct coordinates), `E` the epsilon argument, `C` the exact rational
+coordinates of all ids, `Q` query points.
+
+The answer printed for a kind is what the PROPERTY demands, computed from the *definitions*
+(edge multiplicities, naive closures, exact rational even–odd ray casting, Surface's proved
+deciders); the faithful models of `M3d.MeshDiag` are run next to them and a disagreement between a
+model and its definition is flagged in the output (`MODELDIFF`), so that it fails the check too.
+The harness prints the same canonical form from the REAL outputs; a difference is a violation.
+
+    diag3  -> nr=<b> sv=<ids> ie=<a>b,…> or=<1|0|panic>
+    diagd3 -> nr=<b> sv=<ids> ie=<…>                      (degenerate faces allowed)
+    clus3  -> <v>:<cluster>|<cluster> …                   (clusters of face indices per vertex)
+    rnm3   -> ok groups=<idx:flag,…|…> flip=<idx…> n=<count> clean=<b>  |  panic:<msg>
+    rn3    -> flip=<idx…> n=<count> clean=<b>
+    rep3   -> cls=<min id of the class, per vertex> fix=1 nr=<b>
+    hier3  -> ok nodes=<c0>|<c1>… par=<p…> full=ok cont=<bits>  |  panic:mesh_needs_repair
+    diag2  -> man=<b> iv=<ids>
+    rn2    -> flip=<idx…> n=<count> clean=<b>
+    rep2   -> cls=<…> fix=1 man=<b>
+    hier2  -> like hier3  |  panic:mesh_must_be_manifold | panic:mesh_is_non-manifold
+-/
+namespace M3d.Drv.C11
+open M3d M3d.Surface M3d.MeshDiag
+
+/-! ### parsing -/
+
+def takeSection (marker : String) (ws : List String) (width : Nat) : Option (List String × List String) :=
+  match ws with
+  | m :: n :: rest =>
+    if m ≠ marker then none else
+    match n.toNat? with
+    | some k => if rest.length < k * width then none else some (rest.take (k * width), rest.drop (k * width))
+    | none => none
+  | _ => none
+
+def parseTri (s : String) : Option Tri :=
+  match (s.splitOn ",").mapM (·.toNat?) with
+  | some [a, b, c] => some (a, b, c)
+  | _ => none
+
+def parseSeg (s : String) : Option Seg :=
+  match (s.splitOn ",").mapM (·.toNat?) with
+  | some [a, b] => some (a, b)
+  | _ => none
+
+structure P3 where
+  x : Rat
+  y : Rat
+  z : Rat
+deriving BEq, Inhabited
+
+structure P2 where
+  x : Rat
+  y : Rat
+deriving BEq, Inhabited
+
+def chunk3 : List Rat → List P3
+  | x :: y :: z :: r => ⟨x, y, z⟩ :: chunk3 r
+  | _ => []
+
+def chunk2 : List Rat → List P2
+  | x :: y :: r => ⟨x, y⟩ :: chunk2 r
+  | _ => []
+
+/-- `C <m> id x y z …` with ids 0..m-1 in order. -/
+def parseCoords3 (ws : List String) : Option (Array P3) := do
+  let rec go (ws : List String) (i : Nat) (acc : Array P3) (fuel : Nat) : Option (Array P3) :=
+    match fuel, ws with
+    | _, [] => some acc
+    | 0, _ => none
+    | f + 1, id :: x :: y :: z :: rest => do
+      let id ← id.toNat?
+      if id ≠ i then none
+      let x ← parseRat x; let y ← parseRat y; let z ← parseRat z
+      go rest (i + 1) (acc.push ⟨x, y, z⟩) f
+    | _, _ => none
+  go ws 0 #[] (ws.length + 1)
+
+def parseCoords2 (ws : List String) : Option (Array P2) := do
+  let rec go (ws : List String) (i : Nat) (acc : Array P2) (fuel : Nat) : Option (Array P2) :=
+    match fuel, ws with
+    | _, [] => some acc
+    | 0, _ => none
+    | f + 1, id :: x :: y :: rest => do
+      let id ← id.toNat?
+      if id ≠ i then none
+      let x ← parseRat x; let y ← parseRat y
+      go rest (i + 1) (acc.push ⟨x, y⟩) f
+    | _, _ => none
+  go ws 0 #[] (ws.length + 1)
+
+/-! ### output helpers -/
+
+def natLt (a b : Nat) : Bool := a < b
+def sortNats (l : List Nat) : List Nat := (l.toArray.qsort natLt).toList
+def edgeLt (a b : Edge) : Bool := a.1 < b.1 || (a.1 == b.1 && a.2 < b.2)
+
+def showNats (l : List Nat) : String :=
+  if l.isEmpty then "-" else ",".intercalate (l.map toString)
+
+def showEdges (l : List Edge) : String :=
+  if l.isEmpty then "-" else ",".intercalate (l.map fun e => s!"{e.1}>{e.2}")
+
+/-- Groups of indices: each sorted, groups sorted by first element, joined by `|`. -/
+def canonGroups (gs : List (List Nat)) : List (List Nat) :=
+  let gs := (gs.map sortNats).filter (!·.isEmpty)
+  (gs.toArray.qsort fun a b => a.headD 0 < b.headD 0).toList
+
+def showGroups (gs : List (List Nat)) : String :=
+  if gs.isEmpty then "-" else "|".intercalate ((canonGroups gs).map showNats)
+
+/-! ### definitions, computed exhaustively -/
+
+/-- Some undirected edge is not used by exactly two (face, side) incidences. -/
+def specNeedsRepair (ts : List Tri) : Bool :=
+  let segs := (segsOf ts).toArray.qsort edgeLt
+  -- run lengths of the sorted list
+  let rec go (i : Nat) (cur : Option Edge) (run : Nat) (fuel : Nat) : Bool :=
+    match fuel with
+    | 0 => false
+    | f + 1 =>
+      if h : i < segs.size then
+        let e := segs[i]
+        if cur == some e then go (i + 1) cur (run + 1) f
+        else if cur.isSome && run != 2 then true else go (i + 1) (some e) 1 f
+      else cur.isSome && run != 2
+  go 0 none 0 (segs.size + 1)
+
+/-- The directed edges used more than once, sorted. -/
+def specInconsistent (ts : List Tri) : List Edge :=
+  let es := (dirEdges ts).toArray.qsort edgeLt
+  let rec go (i : Nat) (acc : List Edge) (fuel : Nat) : List Edge :=
+    match fuel with
+    | 0 => acc
+    | f + 1 =>
+      if h : i + 1 < es.size then
+        if es[i] == es[i + 1] && acc.head? != some es[i] then go (i + 1) (es[i] :: acc) f
+        else go (i + 1) acc f
+      else acc
+  (go 0 [] (es.size + 1)).reverse
+
+/-- Naive closure to a fixpoint (at most `|U|` rounds). -/
+def closeOver {α : Type} [BEq α] (adj : α → α → Bool) (U : List α) (start : List α) : List α :=
+  closure adj U U.length start
+
+/-- The vertices whose fan graph (faces at `v`, adjacent when they share an edge) is disconnected. -/
+def specSingular (ts : List Tri) : List Nat :=
+  sortNats ((verts ts).filter fun v =>
+    match trisAt v ts with
+    | [] => false
+    | t :: rest =>
+      let reach := closeOver sharesEdge (t :: rest) [t]
+      !(t :: rest).all reach.contains)
+
+/-- Components of `U` under `adj` by naive closure. -/
+def specComponents {α : Type} [BEq α] (adj : α → α → Bool) (U : List α) : List (List α) :=
+  let rec go (todo : List α) (acc : List (List α)) (fuel : Nat) : List (List α) :=
+    match fuel, todo with
+    | 0, _ => acc
+    | _, [] => acc
+    | f + 1, x :: rest =>
+      let comp := closeOver adj U [x]
+      go (rest.filter fun y => !comp.contains y) (comp :: acc) f
+  (go U [] (U.length + 1)).reverse
+
+/-! ### exact even–odd containment -/
+
+def sub3 (a b : P3) : P3 := ⟨a.x - b.x, a.y - b.y, a.z - b.z⟩
+def add3 (a b : P3) : P3 := ⟨a.x + b.x, a.y + b.y, a.z + b.z⟩
+def scale3 (a : P3) (s : Rat) : P3 := ⟨a.x * s, a.y * s, a.z * s⟩
+def dot3 (a b : P3) : Rat := a.x * b.x + a.y * b.y + a.z * b.z
+def cross3 (a b : P3) : P3 := ⟨a.y * b.z - a.z * b.y, a.z * b.x - a.x * b.z, a.x * b.y - a.y * b.x⟩
+
+/-- Ray `p + t d` (t > 0) against the triangle `a b c`: `some true` = proper crossing,
+`some false` = miss, `none` = touches an edge/vertex/the plane (try another direction). -/
+def rayTri (p d a b c : P3) : Option Bool :=
+  let e1 := sub3 b a
+  let e2 := sub3 c a
+  let h := cross3 d e2
+  let det := dot3 e1 h
+  let s := sub3 p a
+  if det == 0 then
+    -- parallel to the plane: harmless unless the origin lies in the plane
+    if dot3 s (cross3 e1 e2) == 0 then none else some false
+  else
+    let u := dot3 s h / det
+    let q := cross3 s e1
+    let v := dot3 d q / det
+    let t := dot3 e2 q / det
+    if u < 0 || v < 0 || u + v > 1 || t < 0 then some false
+    else if u == 0 || v == 0 || u + v == 1 || t == 0 then none
+    else some true
+
+def rayCount3 (tris : List (P3 × P3 × P3)) (p d : P3) : Option Nat :=
+  tris.foldl (fun acc t => acc.bind fun n =>
+    (rayTri p d t.1 t.2.1 t.2.2).map fun b => if b then n + 1 else n) (some 0)
+
+def dirs3 : List P3 :=
+  [⟨1, (37 : Rat) / 101, (59 : Rat) / 211⟩, ⟨(-43 : Rat) / 97, 1, (71 : Rat) / 233⟩,
+   ⟨(29 : Rat) / 113, (-83 : Rat) / 199, 1⟩, ⟨(-61 : Rat) / 127, (-47 : Rat) / 151, -1⟩,
+   ⟨1, (-89 : Rat) / 307, (53 : Rat) / 311⟩]
+
+/-- Even–odd rule, exactly; `none` if the point is on the surface (every direction degenerate). -/
+def inside3 (tris : List (P3 × P3 × P3)) (p : P3) : Option Bool :=
+  dirs3.findSome? fun d => (rayCount3 tris p d).map fun n => n % 2 == 1
+
+def raySeg (p d a b : P2) : Option Bool :=
+  -- p + t d = a + s (b - a)
+  let e : P2 := ⟨b.x - a.x, b.y - a.y⟩
+  let det := e.x * d.y - e.y * d.x
+  let w : P2 := ⟨a.x - p.x, a.y - p.y⟩
+  if det == 0 then
+    if w.x * e.y - w.y * e.x == 0 then none else some false
+  else
+    -- solve t d - s e = w
+    let t := (e.x * w.y - e.y * w.x) / det
+    let s := (d.x * w.y - d.y * w.x) / det
+    if s < 0 || s > 1 || t < 0 then some false
+    else if s == 0 || s == 1 || t == 0 then none
+    else some true
+
+def rayCount2 (segs : List (P2 × P2)) (p d : P2) : Option Nat :=
+  segs.foldl (fun acc t => acc.bind fun n =>
+    (raySeg p d t.1 t.2).map fun b => if b then n + 1 else n) (some 0)
+
+def dirs2 : List P2 :=
+  [⟨1, (37 : Rat) / 101⟩, ⟨(-43 : Rat) / 97, 1⟩, ⟨(29 : Rat) / 113, -1⟩, ⟨-1, (-47 : Rat) / 151⟩,
+   ⟨1, (-89 : Rat) / 307⟩]
+
+def inside2 (segs : List (P2 × P2)) (p : P2) : Option Bool :=
+  dirs2.findSome? fun d => (rayCount2 segs p d).map fun n => n % 2 == 1
+
+def geoTri (cs : Array P3) (t : Tri) : P3 × P3 × P3 := (cs[t.1]!, cs[t.2.1]!, cs[t.2.2]!)
+def geoSeg (cs : Array P2) (s : Seg) : P2 × P2 := (cs[s.1]!, cs[s.2]!)
+
+/-! ### diag3 / diagd3 -/
+
+def orientStr (ts : List Tri) : String :=
+  match faceOrientations ts with
+  | .groups _ => "1"
+  | .notOrientable => "0"
+  | .impossible => "panic"
+
+def handleDiag3 (withOr : Bool) (ts : List Tri) : String :=
+  let nr := specNeedsRepair ts
+  let sv := specSingular ts
+  let ie := specInconsistent ts
+  -- faithful models next to the definitions
+  let mnr := needsRepair ts
+  let msv := sortNats (singularVertices ts)
+  let mie := (inconsistentEdges ts).toArray.qsort edgeLt |>.toList
+  -- for closed oriented inputs the Surface decider must agree as well
+  let eb := edgeBalanced ts
+  let fanOk := if eb && noDegenerate ts then (fanConnected ts == sv.isEmpty) else true
+  let diff := (if mnr != nr then " MODELDIFF:nr" else "") ++ (if msv != sv then " MODELDIFF:sv" else "")
+    ++ (if mie != ie then " MODELDIFF:ie" else "") ++ (if !fanOk then " MODELDIFF:fan" else "")
+    ++ (if eb && (nr || !ie.isEmpty) then " MODELDIFF:eb" else "")
+  s!"nr={boolStr nr} sv={showNats sv} ie={showEdges ie}" ++
+    (if withOr then s!" or={orientStr ts}" else "") ++ diff
+
+/-! ### clus3 -/
+
+def handleClus3 (ts : List Tri) : String :=
+  let fs := enum ts
+  let per := (sortNats (verts ts)).map fun v =>
+    let fv := facesAt v fs
+    let spec := canonGroups ((specComponents (adjAt v) fv).map fun c => c.map (·.1))
+    let model := canonGroups ((clusters ts v).map fun c => c.map (·.1))
+    s!"{v}:{showGroups spec}" ++ (if model != spec then "MODELDIFF" else "")
+  if per.isEmpty then "-" else " ".intercalate per
+
+/-! ### rnm3 -/
+
+/-- Normalise a group's relative flags so that its smallest face index has flag 0. -/
+def normGroup (g : List (Nat × Bool)) : List (Nat × Bool) :=
+  let g := (g.toArray.qsort fun a b => a.1 < b.1).toList
+  match g with
+  | [] => []
+  | (_, b0) :: _ => if b0 then g.map fun p => (p.1, !p.2) else g
+
+def showFlagGroups (gs : List (List (Nat × Bool))) : String :=
+  let gs := (gs.map normGroup).filter (!·.isEmpty)
+  let gs := (gs.toArray.qsort fun a b => (a.headD (0, false)).1 < (b.headD (0, false)).1).toList
+  if gs.isEmpty then "-" else
+  "|".intercalate (gs.map fun g => ",".intercalate (g.map fun p => s!"{p.1}:{boolStr p.2}"))
+
+/-- The flip set of a group after the majority vote, normalised for ties. -/
+def tieNorm (g : List (Nat × Bool)) : List Nat :=
+  let fl := (g.filter (·.2)).map (·.1)
+  let mn := (sortNats (g.map (·.1))).headD 0
+  if 2 * fl.length == g.length && fl.contains mn then (g.filter (!·.2)).map (·.1) else fl
+
+def handleRnm3 (ts : List Tri) : String :=
+  match faceOrientations ts with
+  | .notOrientable => "panic:mesh_is_not_orientable"
+  | .impossible => "panic:impossible_case_detected"
+  | .groups gs =>
+    let rel := gs.map fun g => g.map fun p => (p.1.1, p.2)
+    let maj := gs.map majorityFlags
+    let flips := sortNats ((maj.map fun g => tieNorm (g.map fun p => (p.1.1, p.2))).flatten)
+    let count := (maj.map fun g => g.countP (·.2)).sum
+    let out := (maj.map applyFlags).flatten
+    let clean := (specInconsistent out).isEmpty
+    -- the vote flips the minority side of every group
+    let minority := (gs.map fun g => min (g.countP (·.2)) (g.length - g.countP (·.2))).sum
+    -- when the input is closed (every edge twice) the repaired mesh must be edge-balanced
+    let closedOk := if !specNeedsRepair ts && noDegenerate ts then edgeBalanced out else true
+    s!"ok groups={showFlagGroups rel} flip={showNats flips} n={count} clean={boolStr clean}" ++
+      (if minority != count then " MODELDIFF:minority" else "") ++
+      (if !closedOk then " MODELDIFF:closed" else "")
+
+/-! ### rn3 / rn2 -/
+
+/-- The point "just outside" face `t` along its normal, at distance about `eps`. -/
+def movedOut3 (cs : Array P3) (eps : Rat) (t : Tri) : P3 :=
+  let (a, b, c) := geoTri cs t
+  let n := cross3 (sub3 b a) (sub3 c a)
+  let center := scale3 (add3 (add3 a b) c) ((1 : Rat) / 3)
+  let len1 := (if n.x < 0 then -n.x else n.x) + (if n.y < 0 then -n.y else n.y) + (if n.z < 0 then -n.z else n.z)
+  if len1 == 0 then center else add3 center (scale3 n (eps / len1))
+
+def handleRn3 (ts : List Tri) (eps : Rat) (cs : Array P3) : String :=
+  let geo := ts.map (geoTri cs)
+  let flags := ts.map fun t => inside3 geo (movedOut3 cs eps t)
+  if flags.any (·.isNone) then "degenerate" else
+  let fl := flags.map (·.getD false)
+  let idx := ((List.range ts.length).zip fl).filter (·.2) |>.map (·.1)
+  let r := repairNormals (fun f => fl.getD f.1 false) ts
+  s!"flip={showNats idx} n={r.2} clean={boolStr (edgeBalanced r.1)}"
+
+def movedOut2 (cs : Array P2) (eps : Rat) (s : Seg) : P2 :=
+  let (a, b) := geoSeg cs s
+  -- model2d Segment.Normal: (-dy, dx) normalised
+  let d : P2 := ⟨b.x - a.x, b.y - a.y⟩
+  let n : P2 := ⟨-d.y, d.x⟩
+  let mid : P2 := ⟨(a.x + b.x) / 2, (a.y + b.y) / 2⟩
+  let len1 := (if n.x < 0 then -n.x else n.x) + (if n.y < 0 then -n.y else n.y)
+  if len1 == 0 then mid else ⟨mid.x + n.x * (eps / len1), mid.y + n.y * (eps / len1)⟩
+
+def handleRn2 (ss : List Seg) (eps : Rat) (cs : Array P2) (normalSign : Rat) : String :=
+  let geo := ss.map (geoSeg cs)
+  let flags := ss.map fun s => inside2 geo (movedOut2 cs (eps * normalSign) s)
+  if flags.any (·.isNone) then "degenerate" else
+  let fl := flags.map (·.getD false)
+  let idx := ((List.range ss.length).zip fl).filter (·.2) |>.map (·.1)
+  let r := repairNormals2 (fun f => fl.getD f.1 false) ss
+  s!"flip={showNats idx} n={r.2} clean={boolStr (closedCurves r.1)}"
+
+/-! ### rep3 / rep2 -/
+
+/-- Go's `math.Round`: half away from zero. -/
+def roundHalfAway (q : Rat) : Int :=
+  if q ≥ 0 then (q + 1 / 2).floor else -((-q + 1 / 2).floor)
+
+def cells3 (cs : Array P3) (eps : Rat) (v : Nat) : List (Int × Int × Int) :=
+  let c := cs[v]!
+  let x := roundHalfAway (c.x / eps); let y := roundHalfAway (c.y / eps); let z := roundHalfAway (c.z / eps)
+  [(x, y, z), (x, y, z + 1), (x, y + 1, z), (x, y + 1, z + 1),
+   (x + 1, y, z), (x + 1, y, z + 1), (x + 1, y + 1, z), (x + 1, y + 1, z + 1)]
+
+def cells2 (cs : Array P2) (eps : Rat) (v : Nat) : List (Int × Int) :=
+  let c := cs[v]!
+  let x := roundHalfAway (c.x / eps); let y := roundHalfAway (c.y / eps)
+  [(x, y), (x, y + 1), (x + 1, y), (x + 1, y + 1)]
+
+/-- `cls`: for every vertex the smallest id of its class under the equivalence closure of
+"share a grid hash" (definition), with the model's classes checked against it. -/
+def repairReport {H : Type} [BEq H] (hashOf : Nat → List H) (nverts : Nat) (used : List Nat) :
+    (Nat → Nat) × String × Bool :=
+  let comps := specComponents (linked hashOf) used
+  let minOf := fun (v : Nat) =>
+    match comps.find? (·.contains v) with
+    | some c => (sortNats c).headD v
+    | none => v
+  let classes := repairClasses hashOf used
+  let modelOk := used.all fun v =>
+    match classes.find? fun k => k.elements.contains v with
+    | some k => sortNats k.elements == sortNats ((comps.find? (·.contains v)).getD []) &&
+        k.elements.contains k.canonical
+    | none => false
+  (minOf, showNats ((List.range nverts).map minOf), modelOk)
+
+def handleRep3 (ts : List Tri) (eps : Rat) (cs : Array P3) : String :=
+  let used := sortNats (verts ts)
+  let (minOf, cls, ok) := repairReport (cells3 cs eps) cs.size used
+  let out := relabel minOf ts
+  s!"cls={cls} fix=1 nr={boolStr (specNeedsRepair out)}" ++ (if !ok then " MODELDIFF" else "")
+
+def handleRep2 (ss : List Seg) (eps : Rat) (cs : Array P2) : String :=
+  let used := sortNats (segVerts ss)
+  let (minOf, cls, ok) := repairReport (cells2 cs eps) cs.size used
+  let out := relabelSegs minOf ss
+  s!"cls={cls} fix=1 man={boolStr (manifold2 out)}" ++ (if !ok then " MODELDIFF" else "")
+
+/-! ### hierarchies -/
+
+/-- Canonical description of a set of components with parent pointers. -/
+def showHier (comps : List (List Nat)) (parentOf : List Nat → Option (List Nat)) : String :=
+  let cs := canonGroups comps
+  let pars := cs.map fun c =>
+    match parentOf c with
+    | none => "r"
+    | some p => match cs.findIdx? (· == sortNats p) with
+      | some i => toString i
+      | none => "?"
+  s!"nodes={if cs.isEmpty then "-" else "|".intercalate (cs.map showNats)} par={if pars.isEmpty then "-" else ",".intercalate pars}"
+
+def bitsStr (l : List Bool) : String :=
+  if l.isEmpty then "-" else String.join (l.map boolStr)
+
+/-- Flatten a model forest into (component face indices, parent component). -/
+def forestPairs {β : Type} : Forest (Nat × List (Nat × β)) → Option (List Nat) →
+    List (List Nat × Option (List Nat))
+  | .nil, _ => []
+  | .node x kids sibs, par =>
+    let me := x.2.map (·.1)
+    (me, par) :: (forestPairs kids (some me) ++ forestPairs sibs par)
+
+/-- Exact value of the float64 nearest to a decimal literal, through its bits. -/
+def ratOfFloat (f : Float) : Rat := (ratOfBits f.toBits).getD 0
+
+def axis3 : P3 := ⟨ratOfFloat 0.95177695, ratOfFloat 0.26858931, ratOfFloat (-0.14825794)⟩
+def axis2 : P2 := ⟨ratOfFloat 0.95177695, ratOfFloat 0.26858931⟩
+
+def handleHier3 (ts : List Tri) (cs : Array P3) (qs : List P3) : String :=
+  if specNeedsRepair ts then "panic:mesh_needs_repair" else
+  let fs := enum ts
+  -- definition: components = classes of faces under "share a vertex" (closure)
+  let comps := specComponents sharesVert fs
+  let geoOf := fun (c : List Face) => c.map fun f => geoTri cs f.2
+  let repOf := fun (c : List Face) => match c with
+    | f :: _ => cs[f.2.1]!
+    | [] => default
+  -- exact enclosure between components
+  let enc := fun (a b : List Face) => (inside3 (geoOf a) (repOf b))
+  let table := comps.map fun b => (b, comps.filter fun a => !(a.map (·.1) == b.map (·.1)) && (enc a b).getD false)
+  if comps.any (fun b => comps.any fun a => !(a.map (·.1) == b.map (·.1)) && (enc a b).isNone) then "degenerate" else
+  let enclosers := fun (b : List Face) => ((table.find? fun p => p.1.map (·.1) == b.map (·.1)).map (·.2)).getD []
+  -- parent = the encloser with the most enclosers; ancestors chain must be exactly the enclosers
+  let parentOf := fun (b : List Face) =>
+    (enclosers b).foldl (fun (best : Option (List Face)) a =>
+      match best with
+      | none => some a
+      | some c => if (enclosers a).length > (enclosers c).length then some a else some c) none
+  let laminar := comps.all fun b =>
+    let rec chain (x : List Face) (fuel : Nat) : List (List Nat) :=
+      match fuel with
+      | 0 => []
+      | f + 1 => match parentOf x with
+        | none => []
+        | some p => p.map (·.1) :: chain p f
+    let ch := chain b comps.length
+    let en := (enclosers b).map fun a => a.map (·.1)
+    ch.length == en.length && en.all ch.contains
+  let idxOf := fun (c : List Face) => c.map (·.1)
+  let spec := showHier (comps.map idxOf) fun c =>
+    match comps.find? fun b => sortNats (idxOf b) == c with
+    | some b => (parentOf b).map idxOf
+    | none => none
+  let geoAll := ts.map (geoTri cs)
+  let cont := qs.map fun q => inside3 geoAll q
+  if cont.any (·.isNone) then "degenerate-query" else
+  -- faithful model with exact oracles, sweep order by exact dot product
+  let order := ((sortNats (verts ts)).toArray.qsort fun a b => dot3 cs[a]! axis3 < dot3 cs[b]! axis3).toList
+  let encTop := fun (y x : Comp) => (inside3 (geoOf y.2) cs[x.1]!).getD false
+  let encIn := fun (y x : Comp) => (inside3 (geoOf y.2) (repOf x.2)).getD false
+  let forest := meshToHierarchy encTop encIn order ts
+  let pairs := forestPairs forest none
+  let model := showHier (pairs.map (·.1)) fun c => ((pairs.find? fun p => sortNats p.1 == c).map (·.2)).join
+  let mcont := qs.map fun q => Forest.contains (fun (x : Comp) => (inside3 (geoOf x.2) q).getD false) forest
+  let mfull := sortNats ((Forest.fullMesh (fun (x : Comp) => x.2) forest).map (·.1)) == List.range ts.length
+  s!"ok {spec} full=ok cont={bitsStr (cont.map (·.getD false))}" ++
+    (if !laminar then " NONLAMINAR" else "") ++
+    (if model != spec then " MODELDIFF:nesting" else "") ++
+    (if mcont != cont.map (·.getD false) then " MODELDIFF:contains" else "") ++
+    (if !mfull then " MODELDIFF:full" else "")
+
+/-- Components of a segment soup under "share a vertex". -/
+def sharesVert2 (s t : Nat × Seg) : Bool := segHas s.2.1 t.2 || segHas s.2.2 t.2
+
+def handleHier2 (ss : List Seg) (cs : Array P2) (qs : List P2) : String :=
+  if !manifold2 ss then "panic:mesh_must_be_manifold" else
+  let order := ((sortNats (segVerts ss)).toArray.qsort fun a b =>
+    cs[a]!.x * axis2.x + cs[a]!.y * axis2.y < cs[b]!.x * axis2.x + cs[b]!.y * axis2.y).toList
+  let geoOf := fun (c : List Seg) => c.map (geoSeg cs)
+  let encTop := fun (y x : Comp2) => (inside2 (geoOf y.2) cs[x.1]!).getD false
+  -- VertexSlice()[0] is an arbitrary vertex of the component: use its first one
+  let encIn := fun (y x : Comp2) => (inside2 (geoOf y.2) (match x.2 with | s :: _ => cs[s.1]! | [] => default)).getD false
+  match meshToHierarchy2 encTop encIn order ss with
+  | none => "panic:mesh_is_non-manifold"
+  | some forest =>
+    let fs := (List.range ss.length).zip ss
+    let comps := specComponents sharesVert2 fs
+    let geoC := fun (c : List (Nat × Seg)) => c.map fun f => geoSeg cs f.2
+    let repOf := fun (c : List (Nat × Seg)) => match c with
+      | f :: _ => cs[f.2.1]!
+      | [] => default
+    let enc := fun (a b : List (Nat × Seg)) => inside2 (geoC a) (repOf b)
+    if comps.any (fun b => comps.any fun a => !(a.map (·.1) == b.map (·.1)) && (enc a b).isNone) then "degenerate" else
+    let enclosers := fun (b : List (Nat × Seg)) =>
+      comps.filter fun a => !(a.map (·.1) == b.map (·.1)) && (enc a b).getD false
+    let parentOf := fun (b : List (Nat × Seg)) =>
+      (enclosers b).foldl (fun (best : Option (List (Nat × Seg))) a =>
+        match best with
+        | none => some a
+        | some c => if (enclosers a).length > (enclosers c).length then some a else some c) none
+    let idxOf := fun (c : List (Nat × Seg)) => c.map (·.1)
+    let spec := showHier (comps.map idxOf) fun c =>
+      match comps.find? fun b => sortNats (idxOf b) == c with
+      | some b => (parentOf b).map idxOf
+      | none => none
+    let geoAll := ss.map (geoSeg cs)
+    let cont := qs.map fun q => inside2 geoAll q
+    if cont.any (·.isNone) then "degenerate-query" else
+    -- the model's components carry segments without indices: recover indices by value
+    let idxSeg := fun (s : Seg) => ((fs.find? fun f => f.2 == s).map (·.1)).getD 0
+    let rec pairs2 : Forest Comp2 → Option (List Nat) → List (List Nat × Option (List Nat))
+      | .nil, _ => []
+      | .node x kids sibs, par =>
+        let me := x.2.map idxSeg
+        (me, par) :: (pairs2 kids (some me) ++ pairs2 sibs par)
+    let pairs := pairs2 forest none
+    let model := showHier (pairs.map (·.1)) fun c => ((pairs.find? fun p => sortNats p.1 == c).map (·.2)).join
+    let mcont := qs.map fun q => Forest.contains (fun (x : Comp2) => (inside2 (geoOf x.2) q).getD false) forest
+    s!"ok {spec} full=ok cont={bitsStr (cont.map (·.getD false))}" ++
+      (if model != spec then " MODELDIFF:nesting" else "") ++
+      (if mcont != cont.map (·.getD false) then " MODELDIFF:contains" else "")
+
+/-! ### diag2 -/
+
+def handleDiag2 (ss : List Seg) : String :=
+  -- definitions: every vertex lies on exactly two segments; a vertex is inconsistent when it is the
+  -- start of two segments or the end of two (non-degenerate) segments
+  let vs := sortNats (segVerts ss)
+  let man := vs.all fun v => ss.countP (segHas v) == 2
+  let iv := vs.filter fun v =>
+    decide ((starts ss).count v > 1) || decide ((ss.filter fun s => s.1 != s.2).countP (·.2 == v) > 1)
+  let mman := manifold2 ss
+  let miv := sortNats (inconsistentVertices2 ss)
+  let link := if noLoopSeg ss then (inOutOne ss == (man && iv.isEmpty)) else true
+  s!"man={boolStr man} iv={showNats iv}" ++ (if mman != man then " MODELDIFF:man" else "") ++
+    (if miv != iv then " MODELDIFF:iv" else "") ++ (if !link then " MODELDIFF:inout" else "")
+
+/-! ### dispatch -/
+
+def handleAll (ws : List String) : Option String := do
+  let kind ← ws.head?
+  let is2 := kind.endsWith "2"
+  let (inp, r) ← takeSection "I" ws.tail 1
+  let (eps, r) ← (match r with
+    | "E" :: e :: r' => (parseRat e).map fun q => (some q, r')
+    | _ => some (none, r))
+  if is2 then
+    let ss ← inp.mapM parseSeg
+    let (cs, r) ← (match takeSection "C" r 3 with
+      | some (c, r') => (parseCoords2 c).map fun a => (a, r')
+      | none => some (#[], r))
+    let qs ← (match takeSection "Q" r 2 with
+      | some (q, _) => (parseRats q).map chunk2
+      | none => some [])
+    let okIds := cs.size == 0 || ss.all fun s => s.1 < cs.size && s.2 < cs.size
+    if !okIds then none
+    match kind with
+    | "diag2" => some (handleDiag2 ss)
+    | "rn2" => some (handleRn2 ss (← eps) cs 1)
+    | "rep2" => some (handleRep2 ss (← eps) cs)
+    | "hier2" => some (handleHier2 ss cs qs)
+    | _ => none
+  else
+    let ts ← inp.mapM parseTri
+    let (cs, r) ← (match takeSection "C" r 4 with
+      | some (c, r') => (parseCoords3 c).map fun a => (a, r')
+      | none => some (#[], r))
+    let qs ← (match takeSection "Q" r 3 with
+      | some (q, _) => (parseRats q).map chunk3
+      | none => some [])
+    let okIds := cs.size == 0 || ts.all fun t => t.1 < cs.size && t.2.1 < cs.size && t.2.2 < cs.size
+    if !okIds then none
+    match kind with
+    | "diag3" => some (handleDiag3 true ts)
+    | "diagd3" => some (handleDiag3 false ts)
+    | "clus3" => some (handleClus3 ts)
+    | "rnm3" => some (handleRnm3 ts)
+    | "rn3" => some (handleRn3 ts (← eps) cs)
+    | "rep3" => some (handleRep3 ts (← eps) cs)
+    | "hier3" => some (handleHier3 ts cs qs)
+    | _ => none
 
 end M3d.Drv.C11
